@@ -3,6 +3,10 @@
 # /verif/seeded/<ID>-<k>/ (patch.diff, demo/, meta.json) and writes seeded/INDEX.md.
 import json, os, re, shutil, glob
 rows=[]
+# changes of rounds 6-7 that the named check missed before it was strengthened (DESIGN.md 8.6);
+# their seedres files were overwritten by the re-run, so the earlier result is recorded here
+FIRST_MISSED={'C18r6-2':'C18','C10r6-3':'C10','C17r6-2':'C17','C12r6-2':'C12','C03r6-3':'C03','C04r6-2':'C04',
+ 'C18r7-1':'C18','C18r7-3':'C18','C06r7-2':'C06','C20r7-3':'C20','C13r7-3':'C13','C12r7-2':'C12','C15r7-2':'C15','C16r7-3':'C16'}
 # changes that were confirmed as patches but judged not to break the property as stated (DESIGN.md §8.3)
 DISPOSITION={
  'C08r4-3': 'outside the property as stated - needs Read on an object that already holds another pack, which the unchanged tree does not support either (DESIGN.md 8.3)',
@@ -49,6 +53,8 @@ for res in sorted(glob.glob('/verif/work/seedres/*.txt')):
             if c in oc and oc[c]['exit']!=new['exit']:
                 hist.append({'check':c,'earlier_result':oc[c],'note':'result before the check was strengthened (or before a base fix landed); superseded by checks_run'})
             oc[c]=new
+        if name in FIRST_MISSED and not any(x.get('check')==FIRST_MISSED[name] for x in hist):
+            hist.append({'check':FIRST_MISSED[name],'earlier_result':{'exit':0,'violation_keys':[]},'note':'result before the check was strengthened (DESIGN.md 8.6); superseded by checks_run'})
         old['history']=hist
         m={'property':pid,'breaks':meta.get('what_it_breaks',''),'title':meta.get('title',''),
            'needs_to_manifest':meta.get('needs_to_manifest',''),'files':meta.get('files',[]),
